@@ -391,7 +391,7 @@ func init() {
 					samples = append(samples, fmt.Sprintf("Check: copy %v current %v %s%s | %s", rc.OK, cc.OK, cc.Msg, cc.Panic, strings.ReplaceAll(rr.Text, "\n", "\\n")))
 				}
 				mu.Unlock()
-				// a schema the current tree refuses (or panics on) although its example obeys: logged as a validation of its own example
+				w.Write(map[string]interface{}{"op": "check", "schema": root, "env": env, "opt": opt, "ok": cc.OK && cc.Kind != "panic", "text": rr.Text, "doctext": cc.Msg + cc.Panic})
 				if cc.Kind == "panic" {
 					w.Write(map[string]interface{}{"op": "validate", "schema": root, "env": env, "opt": opt, "doc": Value{T: "null"}, "ok": true, "code": -2, "kind": "panic",
 						"text": rr.Text, "doctext": "(Check panicked: " + cc.Panic + ")", "forced": "panic"})
